@@ -375,6 +375,13 @@ def build_point(t, tf, cls=None):
 # ---------------------------------------------------------------------------
 
 
+def _pick(t, n):
+    """a deterministic choice among n styles of passing the same argument, spread evenly over terms"""
+    import zlib
+
+    return zlib.crc32(repr(t).encode()) % n
+
+
 def upd_time(t):
     if t == "~":
         return None
@@ -438,7 +445,7 @@ def upd_tags(t):
     name = t[1]
     if name == "const":
         d = {unhx(k): opt_str(v) for k, v in t[2:]}
-        if len(repr(t)) % 2:
+        if _pick(t, 2):
             # the other common style: edit the mapping that was handed over and return it (merging it back
             # changes the same keys)
             def edit(old, d=d):
@@ -472,7 +479,7 @@ def upd_fields(t):
     name = t[1]
     if name == "const":
         d = {unhx(k): parse_num(v) for k, v in t[2:]}
-        if len(repr(t)) % 2:
+        if _pick(t, 2):
             def edit(old, d=d):
                 old.update(d)
                 return old
